@@ -90,6 +90,7 @@ type engine struct {
 	// per group and per pass: inputs left when it is reached are skipped (not counted)
 	groupBudget   time.Duration
 	groupDeadline time.Time
+	iso           *isolation // set in the child process: current inputs are published, known fatal inputs skipped
 }
 
 func (e *engine) expired() bool {
@@ -98,6 +99,19 @@ func (e *engine) expired() bool {
 		return true
 	}
 	return false
+}
+
+// evalOp publishes (op, input) in the slot file before running it, so that the parent process knows
+// what was being evaluated if this process dies (stack exhaustion, out of memory).
+func (e *engine) evalOp(op string, run runFn, in string) result {
+	if e.iso != nil {
+		if e.iso.skip[hashInput(op, in)] {
+			return result{status: "error"}
+		}
+		slot := e.iso.acquire(op, in)
+		defer e.iso.release(slot)
+	}
+	return e.eval(run, in)
 }
 
 func (e *engine) eval(run runFn, in string) result {
@@ -138,7 +152,7 @@ func (e *engine) runBatch(jobs []job) []result {
 					out[i] = result{status: "skipped"}
 					continue
 				}
-				out[i] = e.eval(jobs[i].run, jobs[i].input())
+				out[i] = e.evalOp(jobs[i].op, jobs[i].run, jobs[i].input())
 			}
 		}()
 	}
@@ -151,7 +165,14 @@ func (e *engine) runBatch(jobs []job) []result {
 		}
 		var acc bool
 		in := jobs[i].input()
+		var slot int
+		if e.iso != nil {
+			slot = e.iso.acquire(jobs[i].op, in)
+		}
 		o := render.Guard(4*e.guard, func() { acc = jobs[i].run(in) })
+		if e.iso != nil {
+			e.iso.release(slot)
+		}
 		switch {
 		case o.Timeout:
 			out[i].msg = fmt.Sprintf("no result after %s, and again after %s when run alone", e.guard, 4*e.guard)
@@ -328,7 +349,7 @@ func (e *engine) shrinkInput(f failure, budget int) (string, int) {
 	used := 0
 	still := func(body string) bool {
 		used++
-		r := e.eval(run, f.j.prefix+body)
+		r := e.evalOp(f.j.op, run, f.j.prefix+body)
 		return (r.status == "panic" || r.status == "timeout") && r.site == f.r.site
 	}
 	s := f.j.body
@@ -1288,7 +1309,7 @@ func (g *svgGen) document() (string, bool) {
 	}
 	n := r.Range(0, 6)
 	for i := 0; i < n; i++ {
-		switch r.Intn(16) {
+		switch r.Intn(19) {
 		case 0, 1, 2, 3:
 			b.WriteString(g.shape(true))
 		case 4:
@@ -1335,6 +1356,8 @@ func (g *svgGen) document() (string, bool) {
 			safe = false
 		case 14: // image / nested svg / unknown
 			b.WriteString(rng.Pick(r, "<image href=\"data:image/png;base64,iVBORw0KGgo=\" width=\"5\" height=\"5\"/>", "<image href=\"\"/>", "<image href=\"%zz\" width=\"x\"/>", "<svg viewBox=\"0 0 2 2\" width=\"4\"><line x2=\"2\" y2=\"2\" stroke=\"red\"/></svg>", "<svg viewBox=\"x\" preserveAspectRatio=\"x\"/>", "<unknown a=\"b\"><rect/></unknown>", "<foreignObject><p>x</p></foreignObject>", "<a href=\"#x\"><rect width=\"1\" height=\"1\"/></a>", "<switch><g/></switch>", "<symbol id=\"a\" viewBox=\"0 0 1\"><rect/></symbol>", "<title>t</title><desc>d</desc>", "<!-- c -->", "<![CDATA[ x ]]>", "&amp;&#0;&#x110000;"))
+		case 15, 16: // gradients / patterns inheriting through href: chains, missing ids, self references, cycles
+			b.WriteString(svgHrefGraph(r))
 		default:
 			b.WriteString("<" + rng.Pick(r, svgShapes...) + g.presAttrs(true) + ">")
 		}
@@ -1346,6 +1369,55 @@ func (g *svgGen) document() (string, bool) {
 	}
 	b.WriteString("</svg>")
 	return b.String(), safe
+}
+
+// svgHrefGraph: 1-4 gradients / patterns whose href / xlink:href form a chain, point to a missing id,
+// to themselves, or close a 2-, 3- or 4-cycle; used by a shape or not.
+func svgHrefGraph(r *rng.R) string {
+	ids := []string{"ga", "gb", "gc", "gd"}
+	n := r.Range(1, 4)
+	var b strings.Builder
+	inDefs := r.Bool()
+	if inDefs {
+		b.WriteString("<defs>")
+	}
+	for i := 0; i < n; i++ {
+		var target string
+		switch r.Intn(6) {
+		case 0:
+			target = ids[i]
+		case 1:
+			target = "missing"
+		case 2:
+			target = ids[(i+n-1)%n]
+		default:
+			target = ids[(i+1)%n]
+		}
+		if i == n-1 && r.Bool() {
+			target = ""
+		}
+		k := rng.Pick(r, "linearGradient", "radialGradient", "pattern")
+		b.WriteString("<" + k + attr("id", ids[i]))
+		if target != "" {
+			b.WriteString(attr(rng.Pick(r, "href", "xlink:href", "href"), "#"+target))
+		}
+		if k == "pattern" {
+			b.WriteString(attr("width", "4") + attr("height", "4"))
+		}
+		if r.Bool() {
+			b.WriteString("><stop offset=\"0\" stop-color=\"red\"/><rect width=\"2\" height=\"2\"/></" + k + ">")
+		} else {
+			b.WriteString("/>")
+		}
+	}
+	if inDefs {
+		b.WriteString("</defs>")
+	}
+	s := b.String()
+	if r.P(2, 3) {
+		s += "<rect width=\"8\" height=\"8\"" + attr("fill", "url(#"+ids[r.Intn(n)]+")") + attr("stroke", "url(#"+rng.Pick(r, ids...)+")") + "/>"
+	}
+	return s
 }
 
 const drawSafeMark = "<!--c07:drawsafe-->"
@@ -1970,6 +2042,60 @@ func runHTMLMeta(in string) bool {
 
 func one(j job) []job { return []job{j} }
 
+// properties whose grammar has separators ("/" or ","), and values cut right after a separator,
+// with doubled separators, separator-only values, 1-9 components
+var sepProps = []string{"border-image", "border-image-slice", "border-image-width", "font", "background", "background-position", "background-size",
+	"border-radius", "grid-area", "grid-row", "grid-column", "grid-template", "grid", "aspect-ratio", "mask", "mask-border", "transition", "animation",
+	"font-family", "transform-origin", "place-items", "place-content", "inset", "columns", "flex", "list-style", "text-decoration", "outline",
+	"will-change", "counter-reset", "quotes", "content", "cursor", "font-feature-settings", "font-variation-settings", "grid-template-areas",
+	"grid-template-columns", "box-shadow", "text-shadow", "object-position", "offset", "border-spacing", "margin", "size", "string-set", "bookmark-label"}
+
+var sepAtoms = []string{"1", "2", "0", "10%", "5px", "1em", "auto", "fill", "stretch", "repeat", "round", "url(x)", "url(data:,)", "none", "red", "a", "span 2",
+	"center", "left", "top", "cover", "contain", "bold", "italic", "12px", "serif", "\"a\"", "1fr", "linear-gradient(red,blue)", "1s", "ease", "normal", "-1", "1.5", "calc(1px + 1%)", "var(--x)"}
+
+func sepValue(g *cssGen) string {
+	r := g.r
+	sep := rng.Pick(r, "/", "/", "/", ",", ",", "/ ,")
+	seps := strings.Fields(sep)
+	k := r.Range(0, 9)
+	var toks []string
+	for i := 0; i < k; i++ {
+		if r.P(1, 6) {
+			toks = append(toks, g.component(0))
+		} else {
+			toks = append(toks, rng.Pick(r, sepAtoms...))
+		}
+	}
+	// insert 1-3 separators at random positions, possibly doubled, possibly at the very start / end
+	ns := r.Range(1, 3)
+	for i := 0; i < ns; i++ {
+		sp := rng.Pick(r, seps...)
+		var p int
+		switch r.Intn(4) {
+		case 0:
+			p = len(toks) // right at the end: the value is cut after the separator
+		case 1:
+			p = 0
+		default:
+			p = r.Intn(len(toks) + 1)
+		}
+		ins := []string{sp}
+		if r.P(1, 5) {
+			ins = []string{sp, sp}
+		}
+		toks = append(toks[:p:p], append(ins, toks[p:]...)...)
+	}
+	join := " "
+	if r.P(1, 5) {
+		join = ""
+	}
+	v := strings.Join(toks, join)
+	if r.P(1, 10) {
+		v += " !important"
+	}
+	return v
+}
+
 // cssText: any CSS-ish text (whole sheets, declaration lists, values, junk).
 func cssText(g *cssGen) string {
 	r := g.r
@@ -2000,7 +2126,7 @@ func cssText(g *cssGen) string {
 }
 
 // RunSearch is the crash search of C07 (see the package comment).
-func RunSearch(tier string, seed uint64, repo string, out *res.Result) error {
+func runSearchLocal(tier string, seed uint64, repo string, out *res.Result, iso *isolation) error {
 	render.Quiet()
 	t0 := time.Now()
 	scale, limit, groupBudget := 1, 10*time.Minute, 2*time.Minute
@@ -2027,7 +2153,7 @@ func RunSearch(tier string, seed uint64, repo string, out *res.Result) error {
 	if len(d.decls) < 50 || len(d.keywords) < 200 {
 		out.Notes = append(out.Notes, fmt.Sprintf("c07 search: small run-time corpus (%d declarations, %d keywords) harvested from %s/css", len(d.decls), len(d.keywords), repo))
 	}
-	e := &engine{out: out, workers: workers, t0: t0, limit: limit, classes: map[string]*class{}, distinct: map[uint64]struct{}{}, perOp: map[string]int{}, guard: 5 * time.Second, groupBudget: groupBudget}
+	e := &engine{out: out, workers: workers, t0: t0, limit: limit, classes: map[string]*class{}, distinct: map[uint64]struct{}{}, perOp: map[string]int{}, guard: 5 * time.Second, groupBudget: groupBudget, iso: iso}
 	root := rng.New(seed ^ 0xC07)
 	fonts := &fontPool{repo: repo}
 
@@ -2062,6 +2188,12 @@ func RunSearch(tier string, seed uint64, repo string, out *res.Result) error {
 				}
 			default:
 				name, value = g.decl()
+			}
+			if r.P(1, 7) { // grammar-aware truncation around the separators of shorthands and lists
+				value = sepValue(g)
+				if r.P(3, 4) {
+					name = rng.Pick(r, sepProps...)
+				}
 			}
 			name = strings.TrimSpace(name)
 			return one(job{op: "validate:" + strings.ToLower(name), prefix: name + ":", body: value, run: runValidate})
@@ -2225,6 +2357,22 @@ func RunSearch(tier string, seed uint64, repo string, out *res.Result) error {
 		}})
 	}
 
+	if iso != nil && iso.oneOp != "" {
+		// single-input mode: run one (entry point, input) and report through the exit status / stdout
+		for _, g := range groups {
+			if g.name == iso.oneOp || g.name == opGroup(iso.oneOp) {
+				js := g.base(rng.New(1))
+				if len(js) == 0 {
+					break
+				}
+				r := e.eval(js[0].run, iso.oneInput)
+				fmt.Printf("%s\x00%s\x00%s\n", r.status, r.site, strings.ReplaceAll(r.msg, "\n", " "))
+				return nil
+			}
+		}
+		return fmt.Errorf("no entry point named %q", iso.oneOp)
+	}
+
 	only := os.Getenv("WRH_C07_ONLY") // development aid: comma separated group names
 	states := make([]*gstate, len(groups))
 	for i := range groups {
@@ -2279,7 +2427,7 @@ func RunSearch(tier string, seed uint64, repo string, out *res.Result) error {
 	if out.Rule != "" {
 		out.Rule += " "
 	}
-	out.Rule += "Crash search (in process, every call under a 5 s guard): each parsing entry point receives (1) structured, mostly valid inputs — property validators/expanders: every declaration name of PropsFromNames + the shorthand table + logical/vendor/custom/unknown names, crossed with value literals harvested at run time from css/validation/*_test.go, a table of valid values per property family, and random CSS token sequences (keywords harvested from the validator sources, numbers, dimensions with every unit, strings, url(), ~60 functions with 0-5 arguments and random separators, blocks, hashes, unicode-range, at-keywords, delimiters, !important), each declaration run through the style-attribute path, the style-sheet path and, when it holds var(), the substitution + late validation of the cascade; @font-face / @counter-style descriptors (accepted counter styles are rendered for -2..12 and 10^6); @page preludes and margin boxes; media queries; CSS tokenizer / rule, declaration, component-value, An+B and colour parsers with serialise-and-reparse; selector groups (all combinators, pseudo-classes incl. :nth-*(an+b of S), :not/:is/:has, attribute operators and flags, namespaces, escapes) with String/Specificity/Match; whole style sheets (nesting, @media/@page/@font-face/@counter-style/@namespace/@import data:/@supports, unbalanced and 50-300 deep brackets, truncation, NUL/BOM/invalid UTF-8); SVG documents (shapes, path grammar, transforms, viewBox, preserveAspectRatio, gradients, patterns, markers, use cycles, clip/mask/filter, text, CSS, 100-500 deep nesting; drawn on the recording canvas when no reference cycle is possible) and the SVG attribute parsers one by one; data: URIs and URL joining/unquoting; small HTML documents exercising integer/length/colour attribute readers (laid out with presentational hints) and <meta> dates — and (2) mutations of inputs that were accepted (token deletion / duplication / swap / replacement, truncation incl. every prefix for a sample, insertion of var() var(--x) var(--x,) calc() , / brackets quotes NUL invalid UTF-8). Non-trivial = accepted by the entry point (no error) or a mutation of an accepted input, distinct by (entry point, input text). Failing inputs are shrunk by delta debugging (<=200 runs) before being reported; classes are (entry point, panic site)."
+	out.Rule += "Crash search (the whole search runs in a child process that publishes the input being evaluated, so that a fatal error - stack exhaustion, out of memory - becomes a crash finding carrying its input; every call under a 5 s guard): each parsing entry point receives (1) structured, mostly valid inputs — property validators/expanders: every declaration name of PropsFromNames + the shorthand table + logical/vendor/custom/unknown names, crossed with value literals harvested at run time from css/validation/*_test.go, a table of valid values per property family, and random CSS token sequences (keywords harvested from the validator sources, numbers, dimensions with every unit, strings, url(), ~60 functions with 0-5 arguments and random separators, blocks, hashes, unicode-range, at-keywords, delimiters, !important), each declaration run through the style-attribute path, the style-sheet path and, when it holds var(), the substitution + late validation of the cascade; @font-face / @counter-style descriptors (accepted counter styles are rendered for -2..12 and 10^6); @page preludes and margin boxes; media queries; CSS tokenizer / rule, declaration, component-value, An+B and colour parsers with serialise-and-reparse; selector groups (all combinators, pseudo-classes incl. :nth-*(an+b of S), :not/:is/:has, attribute operators and flags, namespaces, escapes) with String/Specificity/Match; whole style sheets (nesting, @media/@page/@font-face/@counter-style/@namespace/@import data:/@supports, unbalanced and 50-300 deep brackets, truncation, NUL/BOM/invalid UTF-8); SVG documents (shapes, path grammar, transforms, viewBox, preserveAspectRatio, gradients, patterns, markers, use cycles, clip/mask/filter, text, CSS, 100-500 deep nesting; drawn on the recording canvas when no reference cycle is possible) and the SVG attribute parsers one by one; data: URIs and URL joining/unquoting; small HTML documents exercising integer/length/colour attribute readers (laid out with presentational hints) and <meta> dates — and (2) mutations of inputs that were accepted (token deletion / duplication / swap / replacement, truncation incl. every prefix for a sample, insertion of var() var(--x) var(--x,) calc() , / brackets quotes NUL invalid UTF-8). Non-trivial = accepted by the entry point (no error) or a mutation of an accepted input, distinct by (entry point, input text). Failing inputs are shrunk by delta debugging (<=200 runs) before being reported; classes are (entry point, panic site)."
 	out.Notes = append(out.Notes, fmt.Sprintf("c07 search: %d crash classes; total %.0fs on %d workers", len(e.classes), time.Since(t0).Seconds(), workers))
 	return nil
 }
